@@ -238,3 +238,44 @@ def shallow_pond_regime(rng, case):
             w["events"].append({"kind": "storm", "day": off + t, "len": 1, "mag": round(ksat + rng.uniform(0.0, 9.0), 1)})
             t += rng.choice([4, 6, 9])
     return case
+
+
+TABLE_JUMP_PROFILE = {"gw": 1.0, "gw_jump_p": 1.0, "gw_unordered_p": 0.0, "custom_soil_p": 0.1, "dz_p": 0.2, "n_seasons": [1, 2, 2, 3], "events_per_year": 1.0,
+                      "soils": ["Sand", "LoamySand", "SandyLoam", "Loam", "SiltLoam", "Clay", "Paddy", "ac_TunisLocal"]}
+
+
+def table_jump_regime(rng, case):
+    """A water table that alternates between a shallow and a deep regime from one observation to the next (drainage works,
+    pumping, a flood) with the moves placed inside the growing seasons, and rain on the very day it moves: the adjusted field
+    capacity, capillary rise and the saturation of submerged compartments all change at once while water arrives from above."""
+    from ..gen import season_spans
+    spec = case["spec"]
+    start, end = parse_date(spec["start"]), parse_date(spec["end"])
+    n = (end - start).days + 1
+    offs = set()
+    for a, b in season_spans(spec):
+        lo, hi = max(1, a + 5), min(n - 2, b - 3)
+        for _ in range(rng.choice([2, 3, 4])):
+            if hi > lo:
+                offs.add(rng.randint(lo, hi))
+    offs = [0] + sorted(offs)
+    method = rng.choice(["Constant", "Constant", "Variable"])
+    shallow = rng.choice([0.3, 0.5, 0.8, 1.2])
+    deep = rng.choice([3.0, 4.5, 7.0, 12.0])
+    flip = rng.random() < 0.5
+    dates, vals = [], []
+    for j, o in enumerate(offs):
+        v = shallow if (j % 2 == 0) != flip else deep
+        if method == "Variable" and j > 0 and o - 1 > offs[j - 1]:
+            # hold the previous level until the eve of the move, so that the interpolated table moves within one day as well
+            dates.append((start + _dt.timedelta(days=o - 1)).strftime("%Y%m%d"))
+            vals.append(vals[-1])
+        dates.append((start + _dt.timedelta(days=o)).strftime("%Y%m%d"))
+        vals.append(round(v + rng.uniform(0, 0.1), 2))
+    if method == "Variable" and offs[-1] != n - 1:
+        dates.append(end.strftime("%Y%m%d"))
+        vals.append(vals[-1])
+    spec["gw"] = {"water_table": "Y", "method": method, "dates": dates, "values": vals}
+    spec["reactive"] = [{"when": rng.choice(["water_table_drops", "water_table_drops", "water_table_rises"]), "action": "storm",
+                         "mag": rng.choice([8.0, 15.0, 25.0, 40.0, 60.0]), "len": 1, "delay": 0, "max_fires": 8}]
+    return case
